@@ -1,6 +1,7 @@
 import NgoVerif.Sem.Program
 import NgoVerif.Sem.Indep
 import NgoVerif.Sem.Coincidence
+import NgoVerif.Sem.GCongr
 /-!
 # A concrete head semantics (Abstract-Gringo reading) and its independence / persistence properties
 
@@ -276,6 +277,101 @@ theorem stdHeadSat_congr (G : String → Prop) (H T : Interp) (h : Head) (e1 e2 
       obtain ⟨c, hc', htc⟩ := List.mem_flatMap.mp ht
       obtain ⟨x, hx, rfl⟩ := List.mem_map.mp hc'
       exact List.mem_flatMap.mpr ⟨t, List.mem_flatMap.mpr ⟨x, hx, List.mem_append_right _ htc⟩, hvt⟩))))]
+  | theory t => simp only [stdHeadSat]
+
+
+/-! ### `G`-congruence: a head depends on the set of global variables only through its own variables -/
+
+theorem headLitSat_gcongr (G G' : String → Prop) (H T : Interp) (l : Sign × Atom) (e : Env)
+    (h : ∀ v ∈ litVars l, G v ↔ G' v) : headLitSat P G e H T l ↔ headLitSat P G' e H T l := by
+  obtain ⟨s, a⟩ := l
+  cases a with
+  | sym t => cases s <;> simp only [headLitSat]
+  | cmp t gs => simp only [headLitSat]; exact litSat_gcongr P G G' H T _ e h
+  | bool b => simp only [headLitSat]; exact litSat_gcongr P G G' H T _ e h
+  | bagg l c lg f es rg => simp only [headLitSat]; exact litSat_gcongr P G G' H T _ e h
+  | agg lg es rg => simp only [headLitSat]; exact litSat_gcongr P G G' H T _ e h
+  | theory t => simp only [headLitSat]
+
+theorem choiceOk_gcongr_aux (Ga Gb : String → Prop) (H T : Interp) (elems : List CondLit) (e : Env)
+    (hab : ∀ v ∈ (elems.flatMap condLitTerms).flatMap Term.vars, Ga v ↔ Gb v)
+    (hs : choiceOk P Ga e H T elems) : choiceOk P Gb e H T elems := by
+  intro c hc e' ha hcond
+  let vs := (condLitTerms c).flatMap Term.vars
+  have hsub : ∀ v ∈ vs, Ga v ↔ Gb v := by
+    intro v hv
+    obtain ⟨t, ht, hvt⟩ := List.mem_flatMap.mp hv
+    exact hab v (List.mem_flatMap.mpr ⟨t, List.mem_flatMap.mpr ⟨c, hc, ht⟩, hvt⟩)
+  have ha2 : Agree Ga e (patch vs e' e) := agree_patch Gb Ga vs (fun v hv => (hsub v hv).symm) e e' ha
+  have hl : ∀ W W', litSat P Gb e' W W' c.1 ↔ litSat P Ga (patch vs e' e) W W' c.1 := fun W W' => by
+    rw [litSat_gcongr P Ga Gb W W' c.1 _ (fun v hv => hsub v (by
+      simp only [vs, condLitTerms, List.flatMap_append, List.mem_append]; exact Or.inl (by simpa [litVars] using hv)))]
+    exact litSat_congr P Gb W W' c.1 e' _ (fun v hv => patch_eq vs e' e v (by
+      simp only [vs, condLitTerms, List.flatMap_append, List.mem_append]; exact Or.inl (by simpa [litVars] using hv)))
+  have hcc : ∀ W W', litsSat P Gb e' W W' c.2 ↔ litsSat P Ga (patch vs e' e) W W' c.2 := fun W W' => by
+    rw [litsSat_gcongr P Ga Gb W W' c.2 _ (fun v hv => hsub v (by
+      simp only [vs, condLitTerms, List.flatMap_append, List.mem_append]; exact Or.inr hv))]
+    exact litsSat_congr P Gb W W' c.2 e' _ (fun v hv => patch_eq vs e' e v (by
+      simp only [vs, condLitTerms, List.flatMap_append, List.mem_append]; exact Or.inr hv))
+  rcases hs c hc (patch vs e' e) ha2 ((hcc H T).mp hcond) with h1 | h1
+  · exact Or.inl ((hl H T).mpr h1)
+  · exact Or.inr fun h2 => h1 ((hl T T).mp h2)
+
+/-- **`G`-congruence for heads** -/
+theorem stdHeadSat_gcongr (G G' : String → Prop) (H T : Interp) (h : Head) (e : Env)
+    (hv : ∀ v ∈ h.vars, G v ↔ G' v) : stdHeadSat P G e H T h ↔ stdHeadSat P G' e H T h := by
+  cases h with
+  | lit l => simp only [stdHeadSat]; exact headLitSat_gcongr P G G' H T l e (by simpa [Head.vars, Head.terms, litVars] using hv)
+  | disj elems =>
+    simp only [Head.vars, Head.terms] at hv
+    have key : ∀ Ga Gb : String → Prop, (∀ v ∈ (elems.flatMap condLitTerms).flatMap Term.vars, Ga v ↔ Gb v) →
+        stdHeadSat P Ga e H T (.disj elems) → stdHeadSat P Gb e H T (.disj elems) := by
+      intro Ga Gb hab
+      simp only [stdHeadSat]
+      rintro ⟨c, hc, e', ha, h1, h2⟩
+      let vs := (condLitTerms c).flatMap Term.vars
+      have hsub : ∀ v ∈ vs, Ga v ↔ Gb v := by
+        intro v hvv
+        obtain ⟨t, ht, hvt⟩ := List.mem_flatMap.mp hvv
+        exact hab v (List.mem_flatMap.mpr ⟨t, List.mem_flatMap.mpr ⟨c, hc, ht⟩, hvt⟩)
+      refine ⟨c, hc, patch vs e' e, agree_patch Ga Gb vs hsub e e' ha, ?_, ?_⟩
+      · rw [← litsSat_gcongr P Ga Gb H T c.2 _ (fun v hv' => hsub v (by
+          simp only [vs, condLitTerms, List.flatMap_append, List.mem_append]; exact Or.inr hv'))]
+        exact (litsSat_congr P Ga H T c.2 e' _ (fun v hv' => patch_eq vs e' e v (by
+          simp only [vs, condLitTerms, List.flatMap_append, List.mem_append]; exact Or.inr hv'))).mp h1
+      · rw [← litSat_gcongr P Ga Gb H T c.1 _ (fun v hv' => hsub v (by
+          simp only [vs, condLitTerms, List.flatMap_append, List.mem_append]; exact Or.inl (by simpa [litVars] using hv')))]
+        exact (litSat_congr P Ga H T c.1 e' _ (fun v hv' => patch_eq vs e' e v (by
+          simp only [vs, condLitTerms, List.flatMap_append, List.mem_append]; exact Or.inl (by simpa [litVars] using hv')))).mp h2
+    exact ⟨key G G' hv, key G' G (fun v hv' => (hv v hv').symm)⟩
+  | agg lg elems rg =>
+    simp only [Head.vars, Head.terms, List.flatMap_append, List.mem_append] at hv
+    have hel : ∀ v ∈ (elems.flatMap condLitTerms).flatMap Term.vars, G v ↔ G' v := fun v hv' => hv v (Or.inl (Or.inr hv'))
+    have hc : ∀ W, cCount P G e W W elems = cCount P G' e W W elems := by
+      intro W; funext k
+      exact propext (cCount_gcongr P G G' W W elems e (fun v hv' => hel v (by rwa [cElemsTerms_eq] at hv')) k)
+    simp only [stdHeadSat, hc H, hc T]
+    have : choiceOk P G e H T elems ↔ choiceOk P G' e H T elems :=
+      ⟨choiceOk_gcongr_aux P G G' H T elems e hel, choiceOk_gcongr_aux P G' G H T elems e (fun v hv' => (hel v hv').symm)⟩
+    rw [this]
+  | hagg lg f elems rg =>
+    simp only [Head.vars, Head.terms, List.flatMap_append, List.mem_append] at hv
+    have hel : ∀ v ∈ (elems.flatMap (fun e => e.1 ++ condLitTerms e.2)).flatMap Term.vars, G v ↔ G' v :=
+      fun v hv' => hv v (Or.inl (Or.inr hv'))
+    have hc : ∀ W, bTuples P G e W W (haggTuples elems) = bTuples P G' e W W (haggTuples elems) := by
+      intro W; funext k
+      exact propext (bTuples_gcongr P G G' W W _ e (fun v hv' => hel v (by rwa [haggTuples_terms] at hv')) k)
+    have hel2 : ∀ v ∈ ((elems.map (·.2)).flatMap condLitTerms).flatMap Term.vars, G v ↔ G' v := by
+      intro v hv'
+      apply hel
+      obtain ⟨t, ht, hvt⟩ := List.mem_flatMap.mp hv'
+      obtain ⟨c, hc', htc⟩ := List.mem_flatMap.mp ht
+      obtain ⟨x, hx, rfl⟩ := List.mem_map.mp hc'
+      exact List.mem_flatMap.mpr ⟨t, List.mem_flatMap.mpr ⟨x, hx, List.mem_append_right _ htc⟩, hvt⟩
+    simp only [stdHeadSat, hc H, hc T]
+    have : choiceOk P G e H T (elems.map (·.2)) ↔ choiceOk P G' e H T (elems.map (·.2)) :=
+      ⟨choiceOk_gcongr_aux P G G' H T _ e hel2, choiceOk_gcongr_aux P G' G H T _ e (fun v hv' => (hel2 v hv').symm)⟩
+    rw [this]
   | theory t => simp only [stdHeadSat]
 
 /-- the head's global variables: those of a plain literal; elements are local -/
